@@ -44,6 +44,7 @@ func run(c *vrt.Ctx) {
 	total := map[string]int{}
 	skips, large, rej := 0, 0, 0
 	var byState [numStates]int
+	var byClass [5]int
 	vrt.Parallel(len(units), func(i int) {
 		st := &stats{evals: map[string]int{}}
 		runUnit(c, units[i], st)
@@ -65,6 +66,9 @@ func run(c *vrt.Ctx) {
 		for i, n := range st.byState {
 			byState[i] += n
 		}
+		for i, n := range st.byClass {
+			byClass[i] += n
+		}
 		mu.Unlock()
 	})
 	runComplex(c)
@@ -84,6 +88,9 @@ func run(c *vrt.Ctx) {
 	c.Note("operations", len(ops)+4)
 	c.Count("cases_vetoed_by_model(condition number out of calibrated range)", int64(skips))
 	c.Count("cases.large_shape(9..200)", int64(large))
+	for i := 1; i < len(byClass); i++ {
+		c.Count("cases.value_class."+clsName[i], int64(byClass[i]))
+	}
 	c.Count("cases.shape_rejection", int64(rej))
 	for i, n := range byState {
 		c.Count("cases.receiver_state."+[numStates]string{"zero", "reset-big", "reset-small", "exact", "view-nan-canaries", "view-finite-canaries"}[i], int64(n))
@@ -284,6 +291,30 @@ func runUnit(c *vrt.Ctx, w workUnit, st *stats) {
 				st.rej++
 			}
 			st.byState[stt]++
+		}
+		// Value classes (valueclass.go): the same tuple with extreme
+		// magnitudes / signed zeros; one class per tuple in the quick tier,
+		// all of them in the thorough tier.
+		if w.large || o.pats[w.pi].rej {
+			continue
+		}
+		classes := valueClasses(o)
+		if !c.Thorough() || *light {
+			classes = classes[h/3%uint64(len(classes)):][:1]
+		}
+		for _, cls := range classes {
+			for mode := 0; mode < max(1, o.modes); mode++ {
+				stt := states[(h/5+uint64(cls))%uint64(len(states))]
+				x := &caseX{op: o, pi: w.pi, kinds: ks, state: stt, mode: mode, vcls: cls}
+				x.seed = hash64(h, 991, uint64(cls), uint64(mode))
+				x.fin = x.seed&4 != 0
+				if !x.prepare(c, lo, hi) {
+					continue
+				}
+				c.LastCase(x.describe())
+				runCase(c, x, st)
+				st.byClass[cls]++
+			}
 		}
 	}
 }
